@@ -49,6 +49,8 @@ def alphabet_small():
         if_(CMP("<", Y, C(2))),
         assign("<t>", S(V("<t>"), V("<dt>"))),
         assign("a", V("i"), loops=[["i", C(0), C(0)]]),               # zero-trip loop
+        assign("<state>step", S(V("<state>step"), Y)),                # a state component whose name starts like the tag
+        yield_(V("<state>step"), comp="step"),
     ]
 
 
@@ -131,7 +133,7 @@ def guard_family():
     return out
 
 
-INPUTS = {"<t>", "<dt>", "<state>y", W}
+INPUTS = {"<t>", "<dt>", "<state>y", W, "<state>step"}
 
 
 def grammar_programs(chk):
@@ -169,7 +171,7 @@ def inputs(rng, n):
     for y in (0, 1, 3):
         for dt in (1, 2):
             base.append([["<t>", ["i", 0]], ["<dt>", ["i", dt]], ["<state>y", ["i", y]],
-                         [W, ["a", [1, 2, 3]]]])
+                         [W, ["a", [1, 2, 3]]], ["<state>step", ["i", 4]]])
     bounds = [{"max_steps": 1, "t_end": -1}, {"max_steps": 2, "t_end": -1}, {"max_steps": 3, "t_end": -1},
               {"max_steps": -1, "t_end": 2}, {"max_steps": 4, "t_end": 5}]
     combos = [(i, b) for i in base for b in bounds]
